@@ -262,7 +262,7 @@ def execute(cases_, tier, seed):
     res.samples = [{"id": c["id"], "T": c["doc"]["definitions"]["T"]} for c in cases_[:: max(1, len(cases_) // 4)]][:4]
     res.bound = "tier=%s: %d structs of <=3 members over %d member specs; all setter subsets x <=3 values" % (tier, len(cases_), len(specs()))
     res.assumptions = ["convertible sample values are built through from_value::<FieldTy> so no Rust literals are generated"]
-    if len(cases_) > 20 and (n_seq < 300 or n_id < 30):
+    if not res.violations and (len(cases_) > 20 and (n_seq < 300 or n_id < 30)):   # a subject that breaks everything is reported through its violations, not as vacuity
         raise MachineryError("vacuity guard: sequences=%d identity=%d" % (n_seq, n_id))
     return res
 
